@@ -440,13 +440,37 @@ func (s *sched) fireNext() {
 	if !ok {
 		return
 	}
-	s.fireUpTo(target)
+	for {
+		fired := false
+		for _, t := range s.activeTimers() {
+			if !t.deadline.After(target) {
+				s.fire(t)
+				fired = true
+				break
+			}
+		}
+		if !fired {
+			break
+		}
+	}
+	if target.After(s.now) {
+		s.now = target
+	}
 }
+
+// fine tickers (period below 50ms, e.g. the update sender's 5 ms aggregation
+// ticker) are not stepped tick by tick when the harness advances the clock: a
+// timer may always fire late, so "at most once per step of the coarse timers"
+// is a legal behaviour and keeps long clock steps cheap.
+func (t *vtimer) fine() bool { return t.period > 0 && t.period < 50*time.Millisecond }
 
 func (s *sched) fireUpTo(target time.Time) {
 	for {
 		fired := false
 		for _, t := range s.activeTimers() {
+			if t.fine() {
+				continue
+			}
 			if !t.deadline.After(target) {
 				s.fire(t)
 				fired = true
@@ -460,25 +484,35 @@ func (s *sched) fireUpTo(target time.Time) {
 	if target.After(s.now) {
 		s.now = target
 	}
+	for _, t := range s.activeTimers() {
+		if t.fine() && !t.deadline.After(target) {
+			s.fire(t)
+			t.deadline = s.now.Add(t.period)
+		}
+	}
 }
 
 // Advance is called by the harness main thread: it moves the virtual clock
-// forward by d in steps — each step goes to the next pending timer deadline,
-// fires what is due and lets every other thread run to quiescence.
+// forward by d in steps — each step goes to the next pending (coarse) timer
+// deadline, fires what is due and lets every other thread run to quiescence.
 func Advance(d time.Duration) {
 	s := must()
 	target := s.now.Add(d)
 	for {
 		Settle()
-		ts := s.activeTimers()
-		if len(ts) == 0 || ts[0].deadline.After(target) {
+		var next *vtimer
+		for _, t := range s.activeTimers() {
+			if !t.fine() {
+				next = t
+				break
+			}
+		}
+		if next == nil || next.deadline.After(target) {
 			break
 		}
-		s.fireUpTo(ts[0].deadline)
+		s.fireUpTo(next.deadline)
 	}
-	if target.After(s.now) {
-		s.now = target
-	}
+	s.fireUpTo(target)
 	Settle()
 }
 
